@@ -86,6 +86,13 @@ var cmechs = []cmech{
 			return []cline{cls("select {", "switch selIdx, _, r := vsched.SelectRecv2(cb, c); selIdx {"), cls("case b := <-cb:", "case 0:"), cls("\t_ = b", "\t_ = selIdx"),
 				cls("case r := <-c:", "case 1:"), cacc("\t"+y+" = r.F", "&r.F", false), cl("}")}
 		}},
+	// the tainted VALUE (no pointer inside) leaves its goroutine through the send clause of a select statement
+	{id: "selectSendVal", setup: []cline{cls("c := make(chan string, 1)", "c := vsched.MakeChan[string](1)")}, params: "c chan string",
+		paramsSh: "c *vsched.Chan[string]", args: "c",
+		write: func(x string) []cline {
+			return []cline{cls("select {", "{"), caccs("case c <- "+x+":", "c.Send("+x+")", "c", true), cls("default:", "// default:"), cl("}")}
+		},
+		read: func(y string) []cline { return []cline{caccs(y+" = <-c", y+" = c.Recv()", "c", false)} }},
 	// the pointer to the shared object travels inside a struct passed BY VALUE to the goroutine
 	{id: "structByValue", decls: []cline{cl("type Box struct{ P *O }")}, setup: []cline{cl("b := Box{P: &O{}}")}, params: "b Box", args: "b",
 		write: func(x string) []cline { return []cline{cacc("b.P.F = "+x, "&b.P.F", true)} },
